@@ -212,3 +212,65 @@ def compute_is_memoryless(P: Program, R: Report, ann, rule: str) -> None:
             R.fail(rule, comp, consulted[a], f"{ann.name}.compute recomputes every requested active key from the current state",
                    f"compute fills self.{a} and consults it (`{norm(consulted[a])[:70]}`) to skip work, and no deactivate path empties it: after "
                    "disable -> edit -> enable the skipped keys keep their values from before the edit")
+
+
+def keys_threaded(P, R, rule: str, only: tuple[str, ...] | None = None) -> None:
+    """The queries of the data model read an attribute under the name `features.<x>_key`; the annotator that maintains
+    that attribute is told its name when it is constructed.  Where the data model builds an annotator whose constructor
+    has a `<x>_key` parameter and the feature dictionary has a key of that role, the argument is passed and comes from
+    `self.features.<x>_key` - with the default name instead, a feature dictionary with a custom key makes the annotator
+    maintain one attribute while every query (and every edit that relabels) reads another."""
+    import ast as _ast
+
+    from ..model import norm as _norm
+    from ..resolve import Resolver as _Rs
+
+    fd = P.class_named("FeatureDict")
+    fd_keys = set()
+    if fd is not None:
+        for m in fd.methods.values():
+            for x in _ast.walk(m.node):
+                if isinstance(x, _ast.Attribute) and _norm(x.value) == "self" and x.attr.endswith("_key"):
+                    fd_keys.add(x.attr)
+    ann_classes = {c.name: c for c in P.subclasses("GraphAnnotator")}
+    n = 0
+    for f in P.functions.values():
+        if ".data_model." not in f.qname:
+            continue
+        rs = None
+        for c in _ast.walk(f.node):
+            if not (isinstance(c, _ast.Call) and isinstance(c.func, _ast.Name) and c.func.id in ann_classes):
+                continue
+            ci = ann_classes[c.func.id]
+            init = P.lookup_method(ci.qname, "__init__")
+            if init is None:
+                continue
+            params = [p for p in init.params if p != "self"]
+            bound = {}
+            for p_, a_ in zip(params, c.args, strict=False):
+                bound[p_] = a_
+            for k in c.keywords:
+                if k.arg:
+                    bound[k.arg] = k.value
+            for p_ in params:
+                if not p_.endswith("_key"):
+                    continue
+                stem = p_[: -len("_key")]
+                role = next((k for k in sorted(fd_keys) if k[: -len("_key")].startswith(stem) or stem.startswith(k[: -len("_key")])), None)
+                if role is None or (only and not any(o in role for o in only)):
+                    continue
+                n += 1
+                label = f"{f.short}: {ci.name} is told the name `features.{role}` of the attribute it maintains"
+                a = bound.get(p_)
+                if a is None:
+                    R.fail(rule, f, c, label, f"`{_norm(c)[:70]}` does not pass `{p_}`: the annotator maintains the default attribute name, while the queries and the "
+                           f"relabelling edits read `features.{role}` - with a custom key in a pre-built feature dictionary the two differ and the ids are never updated")
+                    continue
+                rs = rs or _Rs(P, f)
+                t = rs.text(a)
+                if f"features.{role}" in t:
+                    R.ok(rule, f, c, label, f"`{p_}` = `{t[:60]}`", via="dataflow")
+                else:
+                    R.undecided(rule, f, c, label, f"`{p_}` = `{t[:60]}`")
+    if n == 0:
+        R.undecided(rule, "data model", "", "annotators are told the attribute names of the feature dictionary", "no annotator construction with a key parameter found")
